@@ -39,6 +39,7 @@ func c02(c *Ctx) {
 	c02Binds(c)
 	c02R5(c)
 	c02R6(c)
+	c03R6(c)
 }
 
 func c02R1(c *Ctx) {
@@ -324,6 +325,7 @@ func c02Binds(c *Ctx) {
 		}
 		c.Check(okArgs, "C02.R4", "syncPods passes buildIPMap's maps", p.Pos(cs.Call), sp.Key(), "ipv4Map, ipv6Map := buildIPMap(…)", "argument provenance not recognised")
 	}
+	c02FamilyRoles(c, "C02.R4")
 	c.Floor("C02.R4", "assignIPFromLocalPool calls in syncPods", 2, n)
 	// buildIPMap links a pod to the address recorded for it (by PodID), per family
 	bi := build.Info()
@@ -568,4 +570,76 @@ func c02R6(c *Ctx) {
 		return true
 	})
 	c.Floor("C02.R6", "address acceptance sites in CRDV2.multiIP", 2, n)
+}
+
+// c02FamilyRoles: consumers of the two family indexes in syncPods get them in family order.
+func c02FamilyRoles(c *Ctx, rule string) {
+	p := c.P
+	sp := p.Func(nodeCtlPkg, "ReconcileNode.syncPods")
+	build := p.Func(nodeCtlPkg, "buildIPMap")
+	if sp == nil || build == nil {
+		c.Unres(rule, "syncPods / buildIPMap", "not found")
+		return
+	}
+	// every consumer in syncPods that takes the two family indexes gets them in family order: the
+	// first map[string]*EniIP parameter receives buildIPMap's first result (IPv4), the second its
+	// second (IPv6)
+	{
+		spInfo := sp.Info()
+		famOf := map[types.Object]int{}
+		ast.Inspect(sp.Decl.Body, func(nd ast.Node) bool {
+			as, ok := nd.(*ast.AssignStmt)
+			if !ok || len(as.Rhs) != 1 || len(as.Lhs) != 2 {
+				return true
+			}
+			if call, ok := as.Rhs[0].(*ast.CallExpr); ok && Callee(spInfo, call) == build.Obj {
+				if o := identObj(spInfo, as.Lhs[0]); o != nil {
+					famOf[o] = 4
+				}
+				if o := identObj(spInfo, as.Lhs[1]); o != nil {
+					famOf[o] = 6
+				}
+			}
+			return true
+		})
+		nRole := 0
+		for _, cs := range p.CallsIn(sp) {
+			if cs.Callee == nil {
+				continue
+			}
+			sig, ok := cs.Callee.Type().(*types.Signature)
+			if !ok {
+				continue
+			}
+			if sig.Variadic() {
+				// …map[string]*EniIP: both families, each once
+				last := sig.Params().At(sig.Params().Len() - 1).Type().(*types.Slice).Elem()
+				if mt, ok := last.Underlying().(*types.Map); ok && typeIs(mt.Elem(), modPath+"/"+nodeCtlPkg, "EniIP") && cs.Call.Ellipsis == token.NoPos && len(cs.Call.Args) >= sig.Params().Len()-1 {
+					nRole++
+					cnt := map[int]int{}
+					for _, a := range cs.Call.Args[sig.Params().Len()-1:] {
+						cnt[famOf[identObj(spInfo, a)]]++
+					}
+					c.Check(cnt[4] == 1 && cnt[6] == 1 && len(cnt) == 2, rule, "syncPods hands "+cs.Callee.Name()+" the index of both families", p.Pos(cs.Call), sp.Key(), cs.Callee.Name()+"(…, ipv4Map, ipv6Map)", fmt.Sprintf("families passed: %v (0 = not a buildIPMap result)", cnt))
+				}
+				continue
+			}
+			if sig.Params().Len() != len(cs.Call.Args) {
+				continue
+			}
+			var mapArgs []ast.Expr
+			for i := 0; i < sig.Params().Len(); i++ {
+				if mt, ok := sig.Params().At(i).Type().Underlying().(*types.Map); ok && typeIs(mt.Elem(), modPath+"/"+nodeCtlPkg, "EniIP") {
+					mapArgs = append(mapArgs, cs.Call.Args[i])
+				}
+			}
+			if len(mapArgs) != 2 {
+				continue
+			}
+			nRole++
+			a, b := famOf[identObj(spInfo, mapArgs[0])], famOf[identObj(spInfo, mapArgs[1])]
+			c.Check(a == 4 && b == 6, rule, "syncPods hands "+cs.Callee.Name()+" the IPv4 index first and the IPv6 index second", p.Pos(cs.Call), sp.Key(), cs.Callee.Name()+"(…, ipv4Map, ipv6Map, …) with ipv4Map, ipv6Map := buildIPMap(…)", fmt.Sprintf("families passed: %d, %d (0 = not a buildIPMap result)", a, b))
+		}
+		c.Floor(rule, "consumers of both family indexes in syncPods", 2, nRole)
+	}
 }
